@@ -135,3 +135,64 @@ Definition l1_count (k : kind) (cells u : list val) : Z :=
   | KMixed => zlen u
   | _ => (zlen (distinct cells) + (if has_nan cells then 1 else 0))%Z
   end.
+
+(* ---- a MixedColumn holding cells that were stored without the type check (Spec/Stats.v xcell): _numbers sees
+   the objects themselves -- bool, NumPy scalars -- through the same generated filter / conversion kernels.
+   Fraction / Decimal objects are outside the classified universe pyv: the model answers MOut for such a column. *)
+Definition pyv_of_xcell (c : xcell) : option pyv :=
+  match c with
+  | XV v => Some (pyv_of_val v)
+  | XBool b => Some (PBool b)
+  | XNpInt z => Some (PNpInt z)
+  | XNpFlt is64 f => Some (PNpFloat is64 f)
+  | XRat _ => None
+  end.
+Fixpoint p_numbers (ps : list pyv) : res (list fl) :=
+  match ps with
+  | [] => Ok []
+  | p :: r =>
+      bind (k_numbers_keep p) (fun keep =>
+        if keep then
+          bind (k_numbers_conv p) (fun x =>
+            match x with
+            | PFloat f => bind (p_numbers r) (fun t => Ok (f :: t))
+            | _ => Raise TypeError
+            end)
+        else p_numbers r)
+  end.
+Definition xm_nums (cells : list xcell) : option (list Qc) :=
+  match all_some (map pyv_of_xcell cells) with
+  | Some ps => match p_numbers ps with Ok l => all_q l | Raise _ => None end
+  | None => None
+  end.
+Definition xm_stat (s : stat) (cells : list xcell) : mres := on_nums (xm_nums cells) (base_stat s).
+Fixpoint all_v (cells : list xcell) : option (list val) :=
+  match cells with
+  | [] => Some []
+  | XV v :: r => option_map (cons v) (all_v r)
+  | _ => None
+  end.
+(* FloatColumn / IntColumn store through NumPy arrays: they only ever hold val cells *)
+Definition xl1_stat (k : kind) (s : stat) (cells : list xcell) : mres :=
+  match k with
+  | KMixed => xm_stat s cells
+  | _ => match all_v cells with Some vs => l1_stat k s vs | None => MOut end
+  end.
+Definition xhas_nan (cells : list xcell) : bool :=
+  existsb (fun c => match c with XV (VFlt FNan) | XNpFlt _ FNan => true | _ => false end) cells.
+(* Fraction and Decimal objects do not compare with each other (TypeError: safe_sorted falls back to the order of
+   their string forms): with such a cell the order of unique is left open *)
+Definition xhas_rat (cells : list xcell) : bool :=
+  existsb (fun c => match c with XRat _ => true | _ => false end) cells.
+Definition xl1_unique (k : kind) (cells : list xcell) : umodel :=
+  let d := xdistinct cells in
+  match all_some (map key_q d) with
+  | Some qs => if (match k with KMixed => xhas_nan cells || xhas_rat cells | _ => false end) then UAnyOrder d
+               else UOrdered (map KNum (qsort qs))
+  | None => UAnyOrder d
+  end.
+Definition xl1_count (k : kind) (cells u : list xcell) : Z :=
+  match k with
+  | KMixed => zlen u
+  | _ => (zlen (xdistinct cells) + (if xhas_nan cells then 1 else 0))%Z
+  end.
